@@ -3,6 +3,7 @@ import ThriftVerif.Facts.ExpectWire
 import ThriftVerif.Facts.ExpectGen
 #print axioms ThriftVerif.Properties.C05.unknown_field_ignored
 #print axioms ThriftVerif.Properties.C05.unknown_field_ignored_stream
+#print axioms ThriftVerif.Properties.C05.unknown_field_ignored_lazy
 #print axioms ThriftVerif.Properties.C05.absent_field
 #print axioms ThriftVerif.Properties.C05.fails_iff
 #print axioms ThriftVerif.Properties.C05.required_missing_iff
